@@ -6,6 +6,7 @@ CONSTANTS
   InitWin = 0
   ConnWin = 0
   MaxCredit = 0
+  Faults = {"rst", "close"}
   Dev <- NoDev
 INVARIANT TypeOK
 INVARIANT Bounded
